@@ -283,4 +283,4 @@ def run(ctx):
         for sim in simrun.SIMS:
             run_hypothesis(ctx, 'large', large_case(sim), prop_large, 12 if quick else 400, rounds=2, case_timeout=300)
     if not only or 'xproc' in only:
-        run_xproc(ctx, 'xproc', 240 if quick else 3000)
+        run_xproc(ctx, 'xproc', 480 if quick else 4000)
